@@ -11,6 +11,12 @@ use crate::io::reader::num::{read_u8, read_u32_le};
 pub fn decode(mut src: &[u8]) -> io::Result<Vec<u8>> {
     let (order, _, uncompressed_size) = read_header(&mut src)?;
 
+    // An empty input has no symbols: its frequency table is the lone terminator, which cannot be
+    // told apart from a table starting with symbol 0, and there is nothing to decode.
+    if uncompressed_size == 0 {
+        return Ok(Vec::new());
+    }
+
     let mut dst = vec![0; uncompressed_size];
 
     match order {
